@@ -57,7 +57,15 @@ Inductive op :=
 | LoadUserD
 | LoadProjectD
 | LoadRuntimeD
-| Merge.
+| Merge
+(* further dict-protocol accesses *)
+| View (fl : flavour) (kp : path)                       (* items() / values() / dict(proxy): the section *)
+| EqD (fl : flavour) (kp : path) (same : bool)          (* proxy == its own deep copy / an altered copy *)
+| GetM (fl : flavour) (kp : path) (k : string) (dflt : option tree)     (* .get(k[, d]) *)
+| UpdateBoth (fl : flavour) (kp : path) (kvs kw : list (string * tree)) (* update(mapping, **kw) *)
+| UpdateProxy (fl : flavour) (kp : path) (src : path)   (* update(<another nested proxy>) *)
+| RawSet (fl : flavour) (kp : path) (sec k : string) (v : tree)   (* r = c.<kp>.get(sec); r[k] = v *)
+| LeafAppend (fl : flavour) (kp : path) (k : string) (s : string). (* c.<kp>[k].append(s) *)
 
 (** Histories may hold proxies: [Hold h fl kp] is [h = c.<kp>], [Via h o] is the
     path operation [o] applied to the held proxy [h] (its paths relative to it). *)
